@@ -1756,3 +1756,36 @@ Proof.
   unfold prev_after, h1, hist.
   rewrite (prev_after_hist_from (firstn (Datatypes.S S) xs) 0 None Hne), Hl. f_equal. lia.
 Qed.
+
+(* a resumed job with a SHORTER window keeps the newest L'-1 values of the restored window: its state is the one a job
+   with window L' would have reached on the same history *)
+Section RunaveShorterWindow.
+  Context {T : Type} (O : NumOps T).
+  Variables (L L' s it0 : nat).
+  Hypothesis HL : (L' <= L)%nat.
+
+  Definition runave_resume (st : @rstate T) : @rstate T := mkRS (r_init st) (firstn (L' - 1) (r_hist st)).
+
+  Lemma firstn_firstn_le {A} (a b : nat) (l : list A) : (a <= b)%nat -> firstn a (firstn b l) = firstn a l.
+  Proof. intros H. rewrite firstn_firstn. f_equal. lia. Qed.
+
+  Lemma runave_final_truncates : forall h st st' prev,
+    r_init st' = r_init st -> r_hist st' = firstn (L' - 1) (r_hist st) ->
+    runave_final O L' s it0 st' prev h = runave_resume (runave_final O L s it0 st prev h).
+  Proof.
+    induction h as [|[t x] h IH]; intros st st' prev Hi Hh.
+    - cbn [runave_final]. unfold runave_resume. destruct st' as [i' h']. cbn [r_init r_hist] in *. subst. reflexivity.
+    - cbn [runave_final]. apply IH.
+      + unfold runave_step. rewrite Hi. destruct (negb (r_init st)); [reflexivity|].
+        destruct ((t mod s =? 0)%nat && after_prev prev t); cbn [fst r_init]; [reflexivity|exact Hi].
+      + unfold runave_step. rewrite Hi. destruct (negb (r_init st)); [destruct (L' - 1)%nat; reflexivity|].
+        destruct ((t mod s =? 0)%nat && after_prev prev t); cbn [fst r_hist]; [|exact Hh].
+        rewrite Hh, firstn_cons_firstn, firstn_firstn_le by lia. reflexivity.
+  Qed.
+
+  Lemma runave_resume_shorter : forall h,
+    runave_resume (runave_final O L s it0 (r0 (T:=T)) None h) = runave_final O L' s it0 (r0 (T:=T)) None h.
+  Proof.
+    intros h. symmetry. apply runave_final_truncates; [reflexivity|]. cbn [r0 r_hist]. destruct (L' - 1)%nat; reflexivity.
+  Qed.
+End RunaveShorterWindow.
